@@ -284,4 +284,37 @@ def tables():
     decls.append(f"def cacheImportInfo : List (String × String) := {llist(ci, pair)}")
     decls.append(f"def cacheImportsSorted : List (String × String) := "
                  f"{llist([c for c in _sorted_calls(rtree) if c[0] == 'make_cacheable_import_info'], pair)}")
+    # ---- the sort key of the cache document's `imports`, in full: the key expression as written, how a
+    # member is made (`from_file`), which fields a member has / compares / hashes on, and how the key type
+    # orders (a probe: `Path` compares component-wise, and a link is not resolved by comparing)
+    import attrs
+    import rattr.models.results.cacheable as cmod
+    sk = []
+    for node in ast.walk(rtree):
+        if isinstance(node, ast.FunctionDef) and node.name == "make_cacheable_import_info":
+            for r in ast.walk(node):
+                if isinstance(r, ast.Call) and isinstance(r.func, ast.Name) and r.func.id == "sorted":
+                    sk.append(("sorted-keywords", ",".join(sorted(k.arg or "**" for k in r.keywords))))
+                    for k in r.keywords:
+                        if k.arg == "key":
+                            sk.append(("key", ast.unparse(k.value)))
+                    a = r.args[0]
+                    sk.append(("member", ast.unparse(getattr(a, "elt", a))))
+    ctree = ast.parse(Path(inspect.getsourcefile(cmod)).read_text())
+    for node in ast.walk(ctree):
+        if isinstance(node, ast.ClassDef) and node.name == "CacheableImportInfo":
+            sk.append(("class-decorators", ",".join(ast.unparse(d) for d in node.decorator_list)))
+            for st in node.body:
+                if isinstance(st, ast.AnnAssign):
+                    sk.append(("field:" + ast.unparse(st.target), ast.unparse(st.annotation) + " = " + ast.unparse(st.value)))
+                if isinstance(st, ast.FunctionDef) and st.name == "from_file":
+                    sk.append(("from_file", "; ".join(ast.unparse(x) for x in st.body)))
+    flds = attrs.fields(CacheableImportInfo)
+    sk.append(("eq-fields", ",".join(f.name for f in flds if f.eq)))
+    sk.append(("hash-fields", ",".join(f.name for f in flds if (f.hash if f.hash is not None else f.eq))))
+    probe_paths = ["r/a/c.py", "r/a.x/c.py", "r/a-b/c.py", "r/a/B.py", "r/A/c.py", "r/a_b/c.py", "frozen", "/abs/z.py"]
+    infos = [CacheableImportInfo(filepath=p, filehash="h") for p in probe_paths]
+    sk.append(("probe:recorded", "|".join(str(i.filepath) for i in infos[:2] + [CacheableImportInfo(filepath="l/../m.py")])))
+    sk.append(("probe:order", "|".join(str(i.filepath) for i in sorted(infos, key=lambda info: info.filepath))))
+    decls.append(f"def cacheSortKey : List (String × String) := {llist(sk, pair)}")
     return decls
